@@ -14,10 +14,10 @@ Proof. unfold parse_date. destruct (parse_date_unguarded pd mk v); reflexivity. 
 Lemma conv_date_total now pd mk : conv_total (conv_date now pd mk).
 Proof. intros v. apply parse_date_total. Qed.
 
-Lemma parse_date_delta_total nl pd mk v : is_raise (parse_date_delta nl pd mk v) = false.
-Proof. unfold parse_date_delta. destruct (parse_date_delta_unguarded nl pd mk v); reflexivity. Qed.
+Lemma parse_date_delta_total nu pd mk v : is_raise (parse_date_delta nu pd mk v) = false.
+Proof. unfold parse_date_delta. destruct (parse_date_delta_unguarded nu pd mk v); reflexivity. Qed.
 
-Lemma conv_date_delta_total nl nu pd mk : conv_total (conv_date_delta nl nu pd mk).
+Lemma conv_date_delta_total nu pd mk : conv_total (conv_date_delta nu pd mk).
 Proof. intros v. apply parse_date_delta_total. Qed.
 
 (* the unguarded parsers do raise: a parsedate_tz tuple with year 99999; twenty nines as delta-seconds *)
@@ -26,7 +26,7 @@ Lemma parse_date_unguarded_raises mk :
 Proof. reflexivity. Qed.
 
 Lemma parse_date_delta_unguarded_raises pd mk :
-  parse_date_delta_unguarded (2021, 3, 3, 10, 20, 30) pd mk (Some (repeat 57%N 20)) = Raise OverflowError.
+  parse_date_delta_unguarded 1614766830 pd mk (Some (repeat 57%N 20)) = Raise OverflowError.
 Proof. vm_compute. reflexivity. Qed.
 
 (* ------------------------------------------------------------------ year bounds from second bounds *)
